@@ -177,7 +177,7 @@ def rule_until(ctx):
                 return Obj("argparse.Namespace", {"log_level": "info", "is_create_sql": False, "is_gui": False, "validate_until": value,
                                                   "plugins_folder": None, "data_paths": list(names[1]), "cid_path": names[0]})
 
-            return Obj("argparse.ArgumentParser", {"add_argument": add_argument, "parse_args": parse_args, "error": parser_error})
+            return Obj("argparse.ArgumentParser", {"add_argument": add_argument, "parse_args": parse_args, "parse_intermixed_args": parse_args, "error": parser_error})
 
         @stub
         def set_cid(interp, args, kwargs):
@@ -225,6 +225,46 @@ def rule_validate_rows(ctx):
     protocol.reader_rows_table(ctx, "O18.5", {"window", "modes", "faults"}, "validate_rows")
 
 
+def rule_options_at_any_position(ctx):
+    """
+    O18.5: "2 for unusable arguments" - and only for those.  argparse matches ALL positional arguments against the first
+    run of non-option words; with an optional positional (nargs '?') followed by a list (nargs '*' or '+') the list is
+    matched empty as soon as an option follows the first word, and the data files after the option are "unrecognized
+    arguments" (exit 2) although the command line is usable: ``cutplace cid.ods --until 5 data.csv``.  A parser that
+    declares more than one positional of variable length therefore has to parse with parse_intermixed_args (frozen fact
+    about argparse, Python 3.7+; the declarations are read from the source).
+    """
+    import ast
+
+    from ..model import AnalysisError, walk_own
+
+    model = ctx.model
+    ctx.res.minimum("O18.5", 1)
+    info = model.func("cutplace.applications.CutplaceApp.set_options")
+    positionals = []
+    parse_calls = []
+    for node in walk_own(info.node):
+        if isinstance(node, ast.Call) and isinstance(node.func, ast.Attribute):
+            if node.func.attr == "add_argument" and node.args and isinstance(node.args[0], ast.Constant) and isinstance(node.args[0].value, str) \
+                    and not node.args[0].value.startswith("-"):
+                nargs = next((k.value.value for k in node.keywords if k.arg == "nargs" and isinstance(k.value, ast.Constant)), None)
+                positionals.append((node.args[0].value, nargs))
+            elif node.func.attr in ("parse_args", "parse_known_args", "parse_intermixed_args", "parse_known_intermixed_args"):
+                parse_calls.append(node)
+    if not positionals or len(parse_calls) != 1:
+        raise AnalysisError("O18.5: set_options declares %d positional argument(s) and has %d parse call(s)" % (len(positionals), len(parse_calls)))
+    variable = [name for name, nargs in positionals if nargs in ("?", "*", "+")]
+    what = "options may stand between the positional arguments %s" % ", ".join("%s (nargs %r)" % item for item in positionals)
+    call = parse_calls[0]
+    if len(variable) >= 2 and "intermixed" not in call.func.attr:
+        ctx.res.fail("O18.5", what, "applications.CutplaceApp.set_options:O18.5:%s" % call.func.attr,
+                     "%s:%d (applications.CutplaceApp.set_options)" % (info.module.relpath, call.lineno),
+                     "%s() matches %s against the first run of words only: 'CID --until 5 DATA' is answered with exit code 2 "
+                     "(unrecognized arguments) although CID and DATA are usable" % (call.func.attr, " and ".join(variable)))
+    else:
+        ctx.res.ok("O18.5", what + " (%s)" % call.func.attr, True)
+
+
 from .common import rule_module_state  # noqa: E402
 
-RULES = [rule_main, rule_process, rule_until, rule_oserror, rule_validate_rows, rule_module_state]
+RULES = [rule_main, rule_process, rule_until, rule_oserror, rule_validate_rows, rule_options_at_any_position, rule_module_state]
